@@ -330,6 +330,11 @@ class Ctx:
                 # sqrt(q^2) = |q| ; = q when q is visibly positive (positive coefficients over positive atoms)
                 if all(c > 0 for c in q.values()) and all(k in self.positive or e % 2 == 0 for m in q for k, e in m):
                     return (q, one)
+                # q (or -q) is itself the radicand of an existing root atom: it is non-negative wherever that root is real
+                for qkey, qk in self.polyatoms.items():
+                    if not qkey or qkey[0] in ('abs', 'absp', 'fn'): continue
+                    if dict(qkey) == q: return (q, one)
+                    if dict(qkey) == pneg(q): return (pneg(q), one)
                 return self.abs_poly(q)
         key = tuple(sorted(p.items()))
         k = self.polyatoms.get(key)
@@ -343,12 +348,35 @@ class Ctx:
                 r = pdivexact(p, q)
                 if r is not None and r:
                     return self.rmul((patom(qk), one), self.sqrt_poly(r))
+        if k is None and len(p) > 1 and self.cancel:
+            # pull the square of a known divisor out of the radicand: sqrt(f^2 * r) = |f| * sqrt(r)
+            for f in self.factors:
+                if len(f) < 2 or 2 * len(f) > len(p) + 1: continue
+                r = pdivexact(p, pmul(f, f))
+                if r is not None and r:
+                    vis = all(c > 0 for c in f.values()) and all(kk in self.positive or e % 2 == 0 for m in f for kk, e in m)
+                    return self.rmul((f, one) if vis else self.abs_poly(f), self.sqrt_poly(r))
         if k is None:
             k = -(len(self.polyatoms) + 1)
             self.polyatoms[key] = k
             self.rules[k] = dict(p)
             self.atom_nodes[k] = None
             self.poly_names[k] = p
+            self.positive.add(k)      # a square root is non-negative: |sqrt(p)| = sqrt(p)
+            if len(p) > 1 and self.cancel:
+                # an older root whose radicand is this one times a square: sqrt(p * g^2) = sqrt(p) * |g|
+                for qkey, qk in list(self.polyatoms.items()):
+                    if not qkey or qkey[0] in ('abs', 'absp', 'fn') or qk == k or qk in self.lin: continue
+                    q = dict(qkey)
+                    if len(q) <= len(p): continue
+                    r = pdivexact(q, p)
+                    if r is None: continue
+                    g = psqrt(r)
+                    if g is None: continue
+                    vis = all(c > 0 for c in g.values()) and all(kk in self.positive or e % 2 == 0 for m in g for kk, e in m)
+                    ag = g if vis else self.abs_poly(g)[0]
+                    self.lin[qk] = pmul(patom(k), ag)
+                    self.memo.clear()
         return (patom(k), one)
 
     def abs_of_atom(self, kk):
@@ -393,6 +421,22 @@ class Ctx:
         if k is None:
             nkey = ('absp',) + tuple(sorted(pneg(p).items()))
             k = self.polyatoms.get(nkey)
+        if k is None and len(p) > 1:
+            # |p| = |q| * r  or  |q| / r  for an existing atom |q| and a visibly positive cofactor r
+            def vpos(r):
+                return bool(r) and all(c > 0 for c in r.values()) and all(kk in self.positive or e % 2 == 0 for m in r for kk, e in m)
+            for qkey, qk in list(self.polyatoms.items()):
+                if not qkey or qkey[0] != 'absp': continue
+                q = dict(qkey[1:])
+                if len(q) < 2: continue
+                for sgn in (1, -1):
+                    qq = q if sgn == 1 else pneg(q)
+                    if len(qq) <= len(p):
+                        r = pdivexact(p, qq)
+                        if r is not None and vpos(r): return (pmul(patom(qk), r), one)
+                    else:
+                        r = pdivexact(qq, p)
+                        if r is not None and vpos(r): return (patom(qk), r)
         if k is None:
             k = -(len(self.polyatoms) + 1)
             self.polyatoms[key] = k
